@@ -109,7 +109,14 @@ func runWorld(t *testing.T, r *simkit.Run) {
 		"compact_trigger": c.Trigger, "campaign_hint": c.CampaignHint}
 	var tmpRoot string
 	if c.DB {
-		d, err := os.MkdirTemp("", "raftsim-")
+		base := "" // raft snapshot chunk directories are real files (fsync included): prefer a RAM disk
+		if st, err := os.Stat("/dev/shm"); err == nil && st.IsDir() {
+			base = "/dev/shm"
+		}
+		d, err := os.MkdirTemp(base, "raftsim-")
+		if err != nil && base != "" {
+			d, err = os.MkdirTemp("", "raftsim-")
+		}
 		if err != nil {
 			r.Infra("tempdir: %v", err)
 			return
@@ -884,6 +891,24 @@ func (w *world) finalPhase() {
 			return
 		}
 	}
+	flagLiveness := os.Getenv("RAFTSIM_FLAG_LIVENESS") == "1"
+	leaders := map[multiraft.SlotID]int{}
+	topTerm := map[multiraft.SlotID]bool{} // the leader's term is the highest term any replica knows
+	for _, m := range w.slots {
+		l := w.leaderOf(m.id)
+		leaders[m.id] = l
+		if l == 0 {
+			continue
+		}
+		lst, err := w.nodes[l].rt.Status(m.id)
+		top := err == nil
+		for i := 1; i <= w.cfg.N && top; i++ {
+			if st, err := w.nodes[i].rt.Status(m.id); err != nil || st.Term > lst.Term {
+				top = false
+			}
+		}
+		topTerm[m.id] = top
+	}
 	w.mu.Lock()
 	defer w.mu.Unlock()
 	for _, m := range w.slots {
@@ -892,12 +917,14 @@ func (w *world) finalPhase() {
 			acked = append(acked, i)
 		}
 		sort.Slice(acked, func(i, j int) bool { return acked[i] < acked[j] })
+		stuckReported := map[int]bool{}
 		for _, idx := range acked {
 			a := m.acked[idx]
 			if ix := m.payloadIdx[a.payload]; len(ix) != 1 && !m.dupTol[a.payload] {
 				w.fail("duplicate-apply", "acked", fmt.Sprintf("slot %d: acknowledged proposal %q is applied at indexes %v", m.id, a.payload, ix))
 				return
 			}
+			holders := 0
 			for i := 1; i <= w.cfg.N; i++ {
 				st := w.nodes[i].reps[m.id].sm
 				got, ok := st.at(idx)
@@ -906,19 +933,49 @@ func (w *world) finalPhase() {
 						m.id, i, got.term, got.data, ok, idx, a.payload, a.term))
 					return
 				}
-				if st.last() < idx {
-					leader := w.leaderOf(m.id)
-					sig := "no-convergence"
-					if progress[m.id][i] == "StateSnapshot" {
-						// etcd raft keeps a follower paused in StateSnapshot until the application
-						// reports the snapshot outcome or the follower acknowledges it
-						sig = "follower-paused-in-snapshot-progress"
-					} else if leader == 0 {
-						sig = "no-leader"
+				if st.last() >= idx {
+					holders++
+					continue
+				}
+				// A replica that never reaches the index is outside C12's statement
+				// (it speaks about replicas that reach the index); counted, and a
+				// violation only on request.
+				sig := "no-convergence"
+				if progress[m.id][i] == "StateSnapshot" {
+					// etcd raft keeps a follower paused in StateSnapshot until the application
+					// reports the snapshot outcome or the follower acknowledges it
+					sig = "follower-paused-in-snapshot-progress"
+				} else if leaders[m.id] == 0 {
+					sig = "no-leader"
+				}
+				if !stuckReported[i] {
+					stuckReported[i] = true
+					if sig == "follower-paused-in-snapshot-progress" {
+						w.r.Probe("liveness.follower_stuck_in_snapshot_progress")
+					} else {
+						w.r.Probe("liveness.not_caught_up_after_heal:" + sig)
 					}
+					w.r.Logf("  n%d/s%d not caught up %d election timeouts after heal: applied %d, leader n%d, progress %q", i, m.id, finalElectionTimeouts, st.last(), leaders[m.id], progress[m.id][i])
+				}
+				if flagLiveness {
 					w.fail("ack-not-applied-after-heal", sig, fmt.Sprintf("slot %d: %d election timeouts after the last fault n%d has applied only up to %d; acknowledged proposal %q at index %d is missing (leader now: n%d, leader's progress for n%d: %q)",
-						m.id, finalElectionTimeouts, i, st.last(), a.payload, idx, leader, i, progress[m.id][i]))
+						m.id, finalElectionTimeouts, i, st.last(), a.payload, idx, leaders[m.id], i, progress[m.id][i]))
 					return
+				}
+			}
+			if holders == 0 {
+				w.fail("ack-lost", "no-replica-holds-it", fmt.Sprintf("slot %d: acknowledged proposal %q (index %d, term %d) is in no replica's applied sequence after heal", m.id, a.payload, idx, a.term))
+				return
+			}
+			// leader completeness: whoever leads after the heal must hold the acknowledged entry
+			if l := leaders[m.id]; l != 0 && topTerm[m.id] {
+				rp := w.nodes[l].reps[m.id]
+				if rp.sm.last() < idx {
+					ents, err := rp.gate.inner.Entries(context.Background(), idx, idx+1, 0)
+					if err == nil && (len(ents) != 1 || ents[0].Index != idx || ents[0].Term != a.term || len(ents[0].Data) <= envelopeSize || string(ents[0].Data[envelopeSize:]) != a.payload) {
+						w.fail("ack-lost", "leader-lacks-it", fmt.Sprintf("slot %d: n%d leads after the heal but its log does not hold acknowledged proposal %q at (index %d, term %d)", m.id, l, a.payload, idx, a.term))
+						return
+					}
 				}
 			}
 		}
